@@ -294,7 +294,8 @@ func (t *textGen) randTime() time.Time {
 }
 
 func (t *textGen) randNode() *node.Node {
-	types := []string{"/u", "/a/b", "/_", "/t.x-y", "/é", "/a<b"[0:2], "/some/long/type"}
+	// (two types with the delimiters of the printed form: NewType refuses them since d18ea1b)
+	types := []string{"/u", "/a/b", "/_", "/t.x-y", "/é", "/a", "/some/long/type", "/a<b", "/a>b"}
 	n, err := node.NewNodeFromStrings(types[t.r.intn(len(types))], t.randID(true))
 	if err != nil {
 		return mustNode("/u", "a")
